@@ -37,9 +37,11 @@ func (bla *BucketLeapArray) NewEmptyBucket() interface{} {
 }
 
 func (bla *BucketLeapArray) ResetBucketTo(bw *BucketWrap, startTime uint64) *BucketWrap {
-	atomic.StoreUint64(&bw.BucketStart, startTime)
+	// zero the counters before the new start is published: a reader that already sees the new start must not
+	// find the expired window's data, and a recorder of the new window must not have its update wiped
 	mb := bw.Value.Load().(*MetricBucket)
 	mb.reset()
+	atomic.StoreUint64(&bw.BucketStart, startTime)
 	return bw
 }
 
